@@ -39,6 +39,9 @@ Proof.
   - apply IH. exact Hn.
 Qed.
 
+Lemma Forall2_len {A B} (R : A -> B -> Prop) l l' : Forall2 R l l' -> len l = len l'.
+Proof. induction 1; cbn; congruence. Qed.
+
 Lemma Forall_mp {A} (P Q : A -> Prop) l : Forall (fun x => P x -> Q x) l -> Forall P l -> Forall Q l.
 Proof. induction 1; intros H'; inversion H'; subst; constructor; auto. Qed.
 
@@ -334,16 +337,11 @@ Proof.
       destruct (is_valid_identifier f); [|exists kr; split; [exact Nkr|exact HI]].
       (* [name = v]: the key is the string itself *)
       exists (VStr f). split.
-      - destruct k; cbn [to_expression] in Ek; try discriminate.
-        + destruct b; discriminate.
-        + destruct (int_supported z); discriminate.
-        + inversion Ek; subst. cbn [key_value] in Ekv. inversion Ekv; subst. reflexivity.
-        + change (to_expression (DSeq items)) with
-            (match seq_entries items with Some es => Some (ETable es) | None => None end) in Ek.
-          destruct (seq_entries items); discriminate.
-        + change (to_expression (DMap entries)) with
-            (match map_entries entries with Some es => Some (ETable es) | None => None end) in Ek.
-          destruct (map_entries entries); discriminate.
+      - destruct k; cbn [key_value] in Ekv; try discriminate Ekv; cbn [to_expression] in Ek.
+        + destruct b; discriminate Ek.
+        + destruct (int_supported z); discriminate Ek.
+        + discriminate Ek.
+        + inversion Ek; subst. inversion Ekv; subst. reflexivity.
       - rewrite fill_S_field. reflexivity. }
     destruct (Hd ve Ed (S n3) rho va s ltac:(lia)) as (v & s1 & E1 & K1 & D1).
     rewrite (bind_run _ _ _ _ _ (eval1_run _ _ _ _ _ _ _ _ E1)).
@@ -421,10 +419,10 @@ Proof.
     + intros i d Hi. destruct (Forall2_nth_r _ _ _ _ _ D2 Hi) as (v & Hv & Dv).
       cbn [t_entries]. unfold seq_key. rewrite (seq_fill_nth vals [] 1%Z i v); try reflexivity; try lia.
       * eapply denotes_weaken; [exact Dv|lia].
-      * rewrite (Forall2_length D2). lia.
+      * rewrite (Forall2_len _ _ _ D2). lia.
       * exact Hv.
     + intros k Hk. cbn [t_entries]. rewrite seq_fill_other; [reflexivity|].
-      intros i Hi. apply Hk. rewrite <- (Forall2_length D2). exact Hi.
+      intros i Hi. apply Hk. rewrite <- (Forall2_len _ _ _ D2). exact Hi.
   - (* mapping *)
     rewrite to_expression_map in He. destruct (map_entries entries) as [es|] eqn:Ees; [|discriminate].
     inversion He; subst e; clear He. rewrite size_map in Hn.
